@@ -158,7 +158,11 @@ func drawMassScript(rt *rapid.T) sess.Script {
 	}
 	id1 := gen.ID128{Lo: 5}
 	sc.Steps = append(sc.Steps, sess.Step{S: 0, K: "params", P: &sess.ParamSpec{Red: 1, Persist: 1, Ack: fib}}, sess.Step{S: 0, K: "elec", ID: &id1})
-	n := rapid.IntRange(8, 48).Draw(rt, "held")
+	sizes := []int{8, 13, 20, 33, 48, 63, 64, 65, 66, 100, 127, 128, 129}
+	if ev.Thorough() {
+		sizes = append(sizes, 255, 256, 257, 511, 512, 513, 1023, 1024, 1025)
+	}
+	n := sizes[rapid.IntRange(0, len(sizes)-1).Draw(rt, "held")]
 	opid := uint64(0)
 	mk := func(o *gen.Op) *gen.Op {
 		opid++
@@ -236,9 +240,18 @@ func TestCampaign(t *testing.T) {
 	})
 	t.Run("mass-resolution", func(t *testing.T) {
 		rapid.Check(t, func(rt *rapid.T) {
-			c := Case{Script: drawMassScript(rt)}
+			// one case in four is a mass script (they are 10-50 times as expensive), the rest are ordinary ones
+			mass := rapid.IntRange(0, 3).Draw(rt, "mass?") == 2
+			var c Case
+			if mass {
+				c = Case{Script: drawMassScript(rt)}
+			} else {
+				c = Case{Script: drawScript(rt)}
+			}
 			v := runCase(c)
-			v.Class("mass-resolution")
+			if mass {
+				v.Class("mass-resolution")
+			}
 			col.Check(rt, ev.JSON(c), v)
 		})
 	})
@@ -250,12 +263,12 @@ func minimize(sig string, cs []byte) []byte {
 	if err := json.Unmarshal(cs, &c); err != nil {
 		return nil
 	}
-	return ev.JSON(Case{Script: sess.Minimize(c.Script, func(s sess.Script) bool {
+	return ev.JSON(Case{Script: sess.Minimize(c.Script, ev.Bounded(func(s sess.Script) bool {
 		for i := 0; i < 3; i++ {
 			if runCase(Case{Script: s}).HasSig(sig) {
 				return true
 			}
 		}
 		return false
-	})})
+	}))})
 }
